@@ -1,4 +1,604 @@
-import EnvVerif.Model.Proof
+/-
+  Props/C01.lean — C01: the digest tree matches the specification.
+  Every constructor establishes `WF`, every operation preserves it (arguments assumed
+  `WF`), every finite history therefore yields `WF` envelopes; a `WF`, canonical envelope
+  reports the digest the specification defines, for itself and for each element; the cached
+  digests are a function of the content (route independence).
+  The hash `h` is arbitrary throughout; nothing is assumed about `Aead` / `Deflate`.
+-/
+import EnvVerif.Lemmas.InvLemmas
 namespace EnvVerif
-theorem c01_placeholder : True := trivial
+open Env
+
+section
+variable (h : Hash) (A : Aead) (Z : Deflate)
+
+/-! ### 1. constructors establish `WF` -/
+
+theorem newLeaf_wf (c : Cbor) : WF h (newLeaf h c) := by simp [newLeaf]
+
+theorem newKnownValue_wf (v : Nat) : WF h (newKnownValue h v) := by simp [newKnownValue]
+
+theorem newAssertion_wf {p o : Env} (hp : WF h p) (ho : WF h o) : WF h (newAssertion h p o) := by
+  simp [newAssertion, hp, ho]
+
+theorem newWrapped_wf {e : Env} (he : WF h e) : WF h (newWrapped h e) := by simp [newWrapped, he]
+
+theorem newElided_wf (d : Digest) : WF h (newElided d) := by simp [newElided]
+
+theorem mkNode_wf_of {s : Env} {as : List Env} (hs : WF h s) (has : ∀ a ∈ as, WF h a) :
+    WF h (mkNode h s as) := (mkNode_wf h).2 ⟨hs, (WFList_iff h as).2 has⟩
+
+theorem newNodeUnchecked_wf {s r : Env} {as : List Env} (hs : WF h s) (has : ∀ a ∈ as, WF h a)
+    (hr : newNodeUnchecked h s as = .ok r) : WF h r := by
+  obtain ⟨_, rfl⟩ := (newNodeUnchecked_ok h).1 hr
+  exact mkNode_wf_of h hs has
+
+theorem newNode_wf {s r : Env} {as : List Env} (hs : WF h s) (has : ∀ a ∈ as, WF h a)
+    (hr : newNode h s as = .ok r) : WF h r := by
+  obtain ⟨_, _, rfl⟩ := (newNode_ok h).1 hr
+  exact mkNode_wf_of h hs has
+
+/-! ### 2. operations preserve `WF` -/
+
+theorem addAssertionEnvelope_wf {e a r : Env} (he : WF h e) (ha : WF h a)
+    (hr : addAssertionEnvelope h e a = .ok r) : WF h r := by
+  unfold addAssertionEnvelope at hr
+  split at hr
+  · cases hr
+  · split at hr
+    · rename_i s as d
+      split at hr
+      · injection hr with hr; subst hr; exact he
+      · obtain ⟨_, rfl⟩ := (newNodeUnchecked_ok h).1 hr
+        simp only [WF_node] at he
+        refine (mkNode_wf h).2 ⟨he.1, ?_⟩
+        rw [WFList_iff] at *
+        intro x hx
+        rcases List.mem_append.1 hx with hx | hx
+        · exact he.2.1 x hx
+        · simp only [List.mem_singleton] at hx; subst hx; exact ha
+    · obtain ⟨_, rfl⟩ := (newNodeUnchecked_ok h).1 hr
+      exact (mkNode_wf h).2 ⟨wf_subject he, by simpa using ha⟩
+
+theorem removeAssertion_wf {e t r : Env} (he : WF h e) (hr : removeAssertion h e t = .ok r) :
+    WF h r := by
+  simp only [removeAssertion] at hr
+  split at hr
+  · rename_i i hi
+    split at hr
+    · injection hr with hr; subst hr; exact wf_subject he
+    · obtain ⟨_, rfl⟩ := (newNodeUnchecked_ok h).1 hr
+      refine (mkNode_wf h).2 ⟨wf_subject he, ?_⟩
+      have := wf_assertions he
+      rw [WFList_iff] at *
+      exact fun x hx => this x (List.mem_of_mem_eraseIdx hx)
+  · injection hr with hr; subst hr; exact he
+
+theorem replaceAssertion_wf {e a b r : Env} (he : WF h e) (hb : WF h b)
+    (hr : replaceAssertion h e a b = .ok r) : WF h r := by
+  obtain ⟨e', h1, h2⟩ := Res.bind_eq_ok.1 hr
+  exact addAssertionEnvelope_wf h (removeAssertion_wf h he h1) hb h2
+
+theorem addAll_wf {e r : Env} {as : List Env} (he : WF h e) (has : ∀ a ∈ as, WF h a)
+    (hr : addAll h e as = .ok r) : WF h r :=
+  foldl_bind_inv (P := WF h) (Q := WF h) (fun x a => addAssertionEnvelope h x a)
+    (fun _ _ _ hx ha hs => addAssertionEnvelope_wf h hx ha hs) as (.ok e) r
+    (fun x hx => by injection hx with hx; subst hx; exact he) has hr
+
+theorem replaceSubject_wf {e s r : Env} (he : WF h e) (hs : WF h s)
+    (hr : replaceSubject h e s = .ok r) : WF h r := by
+  refine foldl_bind_inv (P := WF h) (Q := WF h)
+    (fun x a => match addAssertionEnvelope h x a with
+      | .ok y => .ok y
+      | .err _ => .panic "assertions.rs:replace_subject:unwrap"
+      | .panic p => .panic p)
+    ?_ e.assertions (.ok s) r (fun x hx => by injection hx with hx; subst hx; exact hs)
+    ((WFList_iff h _).1 (wf_assertions he)) hr
+  intro x a r hx ha hstep
+  split at hstep
+  · rename_i y hy; injection hstep with hstep; subst hstep
+    exact addAssertionEnvelope_wf h hx ha hy
+  · cases hstep
+  · cases hstep
+
+theorem wrap_wf {e : Env} (he : WF h e) : WF h (wrap h e) := newWrapped_wf h he
+
+theorem unwrap_wf {e r : Env} (he : WF h e) (hr : unwrap e = .ok r) : WF h r := by
+  unfold unwrap at hr
+  have hs := wf_subject he
+  split at hr
+  · rename_i inner d heq
+    injection hr with hr; subst hr
+    rw [heq] at hs; exact ((WF_wrapped h _ _).1 hs).1
+  · cases hr
+
+theorem subject_wf {e : Env} (he : WF h e) : WF h e.subject := wf_subject he
+
+theorem elide_wf (e : Env) : WF h (elide e) := by
+  unfold elide; split <;> simp [newElided]
+
+mutual
+theorem elideSet_wf (T : Digest → Bool) (rev : Bool) (act : Action) :
+    (e r : Env) → WF h e → elideSet h A Z T rev act e = .ok r → WF h r
+  | .assertion p o d, r, hw, hr => by
+    simp only [elideSet] at hr
+    split at hr
+    · exact obscure_wf h A Z hw hr
+    · split at hr
+      · rename_i p' hp'
+        split at hr
+        · rename_i o' ho'
+          split at hr
+          · injection hr with hr; subst hr
+            simp only [WF_assertion] at hw
+            simp [newAssertion, elideSet_wf T rev act p p' hw.1 hp', elideSet_wf T rev act o o' hw.2.1 ho']
+          · cases hr
+        · cases hr
+        · cases hr
+      · cases hr
+      · cases hr
+  | .node s as d, r, hw, hr => by
+    simp only [elideSet] at hr
+    split at hr
+    · exact obscure_wf h A Z hw hr
+    · split at hr
+      · rename_i s' hs'
+        split at hr
+        · cases hr
+        · split at hr
+          · rename_i as' has'
+            simp only [WF_node] at hw
+            obtain ⟨_, rfl⟩ := (newNodeUnchecked_ok h).1 hr
+            exact (mkNode_wf h).2 ⟨elideSet_wf T rev act s s' hw.1 hs',
+              elideSetList_wf T rev act as as' hw.2.1 has'⟩
+          · cases hr
+          · cases hr
+      · cases hr
+      · cases hr
+  | .wrapped e d, r, hw, hr => by
+    simp only [elideSet] at hr
+    split at hr
+    · exact obscure_wf h A Z hw hr
+    · split at hr
+      · rename_i e' he'
+        split at hr
+        · cases hr
+        · injection hr with hr; subst hr
+          simp only [WF_wrapped] at hw
+          simp [newWrapped, elideSet_wf T rev act e e' hw.1 he']
+      · cases hr
+      · cases hr
+  | .leaf c d, r, hw, hr => by simp only [elideSet] at hr; exact elideSet_wf_atom h A Z hw hr
+  | .elided d, r, hw, hr => by simp only [elideSet] at hr; exact elideSet_wf_atom h A Z hw hr
+  | .knownValue v d, r, hw, hr => by simp only [elideSet] at hr; exact elideSet_wf_atom h A Z hw hr
+  | .encrypted m d, r, hw, hr => by simp only [elideSet] at hr; exact elideSet_wf_atom h A Z hw hr
+  | .compressed c d, r, hw, hr => by simp only [elideSet] at hr; exact elideSet_wf_atom h A Z hw hr
+theorem elideSetList_wf (T : Digest → Bool) (rev : Bool) (act : Action) :
+    (as rs : List Env) → WFList h as → elideSetList h A Z T rev act as = .ok rs → WFList h rs
+  | [], rs, _, hr => by simp only [elideSetList] at hr; injection hr with hr; subst hr; simp
+  | a :: as, rs, hw, hr => by
+    simp only [elideSetList] at hr
+    split at hr
+    · rename_i a' ha'
+      split at hr
+      · cases hr
+      · split at hr
+        · rename_i as' has'
+          injection hr with hr; subst hr
+          simp only [WFList_cons] at hw ⊢
+          exact ⟨elideSet_wf T rev act a a' hw.1 ha', elideSetList_wf T rev act as as' hw.2 has'⟩
+        · cases hr
+        · cases hr
+    · cases hr
+    · cases hr
+end
+
+theorem compress_wf {e r : Env} (hr : compress Z e = .ok r) : WF h r := by
+  obtain ⟨c, rfl⟩ := compress_ok Z hr; simp
+
+theorem compressSubject_wf {e r : Env} (he : WF h e) (hr : compressSubject h Z e = .ok r) :
+    WF h r := by
+  unfold compressSubject at hr
+  split at hr
+  · injection hr with hr; subst hr; exact he
+  · obtain ⟨s, h1, h2⟩ := Res.bind_eq_ok.1 hr
+    exact replaceSubject_wf h he (compress_wf h Z h1) h2
+
+theorem encryptSubject_wf {key nonce : Bytes} {e r : Env} (he : WF h e)
+    (hr : encryptSubject h A key nonce e = .ok r) : WF h r := by
+  unfold encryptSubject at hr
+  split at hr
+  · rename_i s as d
+    simp only [WF_node] at he
+    split at hr
+    · cases hr
+    · split at hr
+      · rename_i es hes
+        obtain ⟨d', rfl, hd'⟩ := newEncryptedUnwrap_ok hes
+        split at hr
+        · rename_i r' hr'
+          dsimp only at hr
+          split at hr
+          · injection hr with hr; subst hr
+            exact newNodeUnchecked_wf h (by simpa using hd') ((WFList_iff h as).1 he.2.1) hr'
+          · cases hr
+        · cases hr
+        · cases hr
+      · cases hr
+      · cases hr
+  · cases hr
+  · cases hr
+  · split at hr
+    · rename_i r' hr'
+      obtain ⟨d', rfl, hd'⟩ := newEncryptedUnwrap_ok hr'
+      dsimp only at hr
+      split at hr
+      · injection hr with hr; subst hr; simpa using hd'
+      · cases hr
+    · cases hr
+    · cases hr
+
+theorem encryptWhole_wf {key nonce : Bytes} {e r : Env} (he : WF h e)
+    (hr : encryptWhole h A key nonce e = .ok r) : WF h r := by
+  unfold encryptWhole at hr
+  split at hr
+  · rename_i r' hr'; injection hr with hr; subst hr
+    exact encryptSubject_wf h A (wrap_wf h he) hr'
+  · cases hr
+  · cases hr
+
+theorem unelide_wf {p e r : Env} (he : WF h e) (hr : unelide p e = .ok r) : WF h r := by
+  unfold unelide at hr
+  split at hr
+  · injection hr with hr; subst hr; exact he
+  · cases hr
+
+/-! ### 2b. operations that decode bytes return `WF` envelopes -/
+
+/-- whatever `decodeEncrypted` accepts is an encrypted element whose declared digest is the
+one its `aad` decodes to -/
+theorem decodeEncrypted_wf {item : Cbor} {e : Env} (he : decodeEncrypted item = .ok e) : WF h e := by
+  unfold decodeEncrypted at he
+  repeat' first | split at he | dsimp only at he
+  all_goals first
+    | (injection he with he; subst he; simpa using ‹_ = some _›)
+    | cases he
+
+theorem decodeCompressed_wf {item : Cbor} {e : Env} (he : decodeCompressed item = .ok e) : WF h e := by
+  unfold decodeCompressed at he
+  repeat' split at he
+  all_goals first
+    | (injection he with he; subst he; simp)
+    | cases he
+
+mutual
+theorem envOfCbor_wf : (c : Cbor) → (e : Env) → envOfCbor h c = .ok e → WF h e
+  | .tagged t item, e, he => by
+    simp only [envOfCbor] at he
+    split at he
+    · injection he with he; subst he; simp [newLeaf]
+    · split at he
+      · split at he
+        · rename_i x hx
+          injection he with he; subst he
+          simp [newWrapped, envOfCbor_wf item x hx]
+        · cases he
+        · cases he
+      · split at he
+        · exact decodeEncrypted_wf h he
+        · split at he
+          · exact decodeCompressed_wf h he
+          · cases he
+  | .bytes b, e, he => by
+    simp only [envOfCbor] at he
+    split at he
+    · injection he with he; subst he; simp [newElided]
+    · cases he
+  | .array [], e, he => by simp [envOfCbor] at he
+  | .array [_], e, he => by simp [envOfCbor] at he
+  | .array (x :: y :: rest), e, he => by
+    simp only [envOfCbor] at he
+    split at he
+    · rename_i s hs
+      split at he
+      · rename_i as has
+        have hs' := envOfCbor_wf x s hs
+        have has' := (WFList_iff h as).1 (envOfCborList_wf (y :: rest) as has)
+        -- any further guard in front of `newNode` is split away here
+        repeat' split at he
+        all_goals first
+          | (obtain ⟨_, _, rfl⟩ := (newNode_ok h).1 he
+             exact (mkNode_wf h).2 ⟨hs', (WFList_iff h as).2 has'⟩)
+          | cases he
+      · cases he
+      · cases he
+    · cases he
+    · cases he
+  | .map [(k, v)], e, he => by
+    simp only [envOfCbor] at he
+    split at he
+    · rename_i p hp
+      split at he
+      · rename_i o ho
+        injection he with he; subst he
+        simp [newAssertion, envOfCbor_wf k p hp, envOfCbor_wf v o ho]
+      · cases he
+      · cases he
+    · cases he
+    · cases he
+  | .map [], e, he => by simp [envOfCbor] at he
+  | .map (_ :: _ :: _), e, he => by simp [envOfCbor] at he
+  | .uint v, e, he => by
+    simp only [envOfCbor] at he
+    injection he with he; subst he; simp [newKnownValue]
+  | .nint _, e, he => by simp [envOfCbor] at he
+  | .text _, e, he => by simp [envOfCbor] at he
+  | .simple _, e, he => by simp [envOfCbor] at he
+  | .float _, e, he => by simp [envOfCbor] at he
+theorem envOfCborList_wf : (cs : List Cbor) → (es : List Env) → envOfCborList h cs = .ok es → WFList h es
+  | [], es, he => by simp only [envOfCborList] at he; injection he with he; subst he; simp
+  | c :: cs, es, he => by
+    simp only [envOfCborList] at he
+    split at he
+    · rename_i x hx
+      split at he
+      · rename_i xs hxs
+        injection he with he; subst he
+        simp [envOfCbor_wf c x hx, envOfCborList_wf cs xs hxs]
+      · cases he
+      · cases he
+    · cases he
+    · cases he
+end
+
+theorem envOfTaggedCbor_wf {c : Cbor} {e : Env} (he : envOfTaggedCbor h c = .ok e) : WF h e := by
+  unfold envOfTaggedCbor at he
+  repeat' split at he
+  all_goals first
+    | exact envOfCbor_wf h _ _ he
+    | cases he
+
+theorem decode_wf {b : Bytes} {e : Env} (he : decode h b = .ok e) : WF h e := by
+  unfold decode at he
+  split at he
+  · exact envOfTaggedCbor_wf h he
+  · cases he
+
+theorem uncompress_wf {e r : Env} (hr : uncompress h Z e = .ok r) : WF h r := by
+  unfold uncompress at hr
+  split at hr
+  · split at hr
+    · cases hr
+    · split at hr
+      · rename_i x hx
+        split at hr
+        · cases hr
+        · injection hr with hr; subst hr; exact decode_wf h hx
+      · cases hr
+      · cases hr
+  · cases hr
+
+theorem uncompressSubject_wf {e r : Env} (he : WF h e) (hr : uncompressSubject h Z e = .ok r) :
+    WF h r := by
+  unfold uncompressSubject at hr
+  split at hr
+  · obtain ⟨s, h1, h2⟩ := Res.bind_eq_ok.1 hr
+    have hs := uncompress_wf h Z h1
+    split at h2
+    · exact newNodeUnchecked_wf h hs ((WFList_iff h _).1 ((WF_node h _ _ _).1 he).2.1) h2
+    · injection h2 with h2; subst h2; exact hs
+  · injection hr with hr; subst hr; exact he
+
+theorem decryptSubject_wf {key : Bytes} {e r : Env} (he : WF h e)
+    (hr : decryptSubject h A key e = .ok r) : WF h r := by
+  unfold decryptSubject at hr
+  split at hr
+  · split at hr
+    · cases hr
+    · split at hr
+      · cases hr
+      · split at hr
+        · rename_i rs hrs
+          have hrs' := decode_wf h hrs
+          split at hr
+          · cases hr
+          · split at hr
+            · simp only [WF_node] at he
+              split at hr
+              · rename_i r' hr'
+                split at hr
+                · cases hr
+                · injection hr with hr; subst hr
+                  exact newNodeUnchecked_wf h hrs' ((WFList_iff h _).1 he.2.1) hr'
+              · cases hr
+              · cases hr
+            · injection hr with hr; subst hr; exact hrs'
+        · cases hr
+        · cases hr
+  · cases hr
+
+theorem decryptWhole_wf {key : Bytes} {e r : Env} (he : WF h e)
+    (hr : decryptWhole h A key e = .ok r) : WF h r := by
+  obtain ⟨x, h1, h2⟩ := Res.bind_eq_ok.1 hr
+  exact unwrap_wf h (decryptSubject_wf h A he h1) h2
+
+/-! ### 3. histories -/
+
+/-- one step: every operation of `Op`, decoding ones included, preserves `WF` -/
+theorem applyOp_wf {o : Op} {e r : Env} (he : WF h e) (ha : ∀ a ∈ o.args, WF h a)
+    (hr : applyOp h A Z o e = .ok r) : WF h r := by
+  cases o <;> simp only [applyOp] at hr <;> simp only [Op.args] at ha
+  case addAssertion a => exact addAssertionEnvelope_wf h he (ha a (by simp)) hr
+  case removeAssertion t => exact removeAssertion_wf h he hr
+  case replaceAssertion a b => exact replaceAssertion_wf h he (ha b (by simp)) hr
+  case replaceSubject s => exact replaceSubject_wf h he (ha s (by simp)) hr
+  case addAll as => exact addAll_wf h he ha hr
+  case assertionWithObject o =>
+    injection hr with hr; subst hr; exact newAssertion_wf h he (ha o (by simp))
+  case assertionWithPredicate p =>
+    injection hr with hr; subst hr; exact newAssertion_wf h (ha p (by simp)) he
+  case wrap => injection hr with hr; subst hr; exact wrap_wf h he
+  case unwrap => exact unwrap_wf h he hr
+  case subject => injection hr with hr; subst hr; exact subject_wf h he
+  case elide => injection hr with hr; subst hr; exact elide_wf h e
+  case elideSet T rev act => exact elideSet_wf h A Z T rev act e r he hr
+  case compress => exact compress_wf h Z hr
+  case compressSubject => exact compressSubject_wf h Z he hr
+  case encryptSubject key nonce => exact encryptSubject_wf h A he hr
+  case encryptWhole key nonce => exact encryptWhole_wf h A he hr
+  case unelide o => exact unelide_wf h (ha o (by simp)) hr
+  case decodeBytes b => exact decode_wf h hr
+  case reencode => exact decode_wf h hr
+  case uncompress => exact uncompress_wf h Z hr
+  case uncompressSubject => exact uncompressSubject_wf h Z he hr
+  case decryptSubject key => exact decryptSubject_wf h A he hr
+  case decryptWhole key => exact decryptWhole_wf h A he hr
+
+/-- every envelope returned at any step of any finite history is `WF` -/
+theorem history_wf (ops : List Op) : ∀ (e0 : Env), WF h e0 → (∀ o ∈ ops, ∀ a ∈ o.args, WF h a) →
+    ∀ r, Res.ok r ∈ runHistory h A Z e0 ops → WF h r := by
+  induction ops with
+  | nil => intro e0 _ _ r hr; simp [runHistory] at hr
+  | cons o os ih =>
+    intro e0 he ha r hr
+    simp only [runHistory] at hr
+    split at hr
+    · rename_i r1 hr1
+      have h1 := applyOp_wf h A Z he (ha o (by simp)) hr1
+      rcases List.mem_cons.1 hr with heq | hmem
+      · injection heq with heq; subst heq; exact h1
+      · exact ih r1 h1 (fun o' ho' => ha o' (by simp [ho'])) r hmem
+    · rename_i x hx
+      simp only [List.mem_singleton] at hr
+      exact absurd hr.symm (hx r)
+
+/-- everything built from constructors and operations, arguments built the same way
+(the histories form a DAG, not a list), is `WF` -/
+theorem produced_wf {dec : Bool} {e : Env} (hp : Produced h A Z dec e) : WF h e := by
+  induction hp with
+  | leaf c => exact newLeaf_wf h c
+  | knownValue v => exact newKnownValue_wf h v
+  | elided d _ => exact newElided_wf h d
+  | op o e r _ _ _ hr ihe iha => exact applyOp_wf h A Z ihe iha hr
+
+/-! ### 4. the reported digest is the specification's digest -/
+
+mutual
+theorem digest_eq_spec_aux : (e : Env) → WF h e → Canon e → e.digest = specDigest h e
+  | .node s as d, hw, hc => by
+    simp only [WF_node] at hw
+    simp only [Canon_node] at hc
+    simp only [Env.digest, specDigest]
+    rw [hw.2.2, ← digest_eq_spec_aux s hw.1 hc.1, ← digests_eq_specList_aux as hw.2.1 hc.2.1]
+    rw [List.mergeSort_of_pairwise]
+    rw [List.pairwise_map]
+    exact hc.2.2.2.1.imp (fun {a b} hab => by simp only [decide_eq_true_eq]; omega)
+  | .leaf c d, hw, _ => by simpa [specDigest, Env.digest] using hw
+  | .wrapped e d, hw, hc => by
+    simp only [WF_wrapped] at hw
+    simp only [Canon_wrapped] at hc
+    simp only [Env.digest, specDigest]
+    rw [hw.2, digest_eq_spec_aux e hw.1 hc]
+  | .assertion p o d, hw, hc => by
+    simp only [WF_assertion] at hw
+    simp only [Canon_assertion] at hc
+    simp only [Env.digest, specDigest]
+    rw [hw.2.2, digest_eq_spec_aux p hw.1 hc.1, digest_eq_spec_aux o hw.2.1 hc.2]
+  | .elided d, _, _ => by simp [specDigest, Env.digest]
+  | .knownValue v d, hw, _ => by simpa [specDigest, Env.digest] using hw
+  | .encrypted m d, hw, _ => by
+    simp only [WF_encrypted] at hw
+    simp [specDigest, Env.digest, hw]
+  | .compressed c d, _, _ => by simp [specDigest, Env.digest]
+theorem digests_eq_specList_aux : (as : List Env) → WFList h as → CanonList as →
+    as.map Env.digest = specDigestList h as
+  | [], _, _ => by simp [specDigestList]
+  | a :: as, hw, hc => by
+    simp only [WFList_cons] at hw
+    simp only [CanonList_cons] at hc
+    simp only [List.map_cons, specDigestList]
+    rw [digest_eq_spec_aux a hw.1 hc.1, digests_eq_specList_aux as hw.2 hc.2]
+end
+
+/-- the digest an invariant-satisfying envelope reports is the one the specification
+defines for its structure -/
+theorem wf_digest_eq_spec {e : Env} (hi : Inv h e) : e.digest = specDigest h e :=
+  digest_eq_spec_aux h e hi.1 hi.2
+
+/-- ... and so does each of its elements -/
+theorem wf_digest_eq_spec_elements {e : Env} (hi : Inv h e) :
+    ∀ x ∈ elements e, x.digest = specDigest h x :=
+  fun x hx => digest_eq_spec_aux h x (mem_elements_wf h e x hi.1 hx) (mem_elements_canon e x hi.2 hx)
+
+/-! ### 5. route independence: the cached digests are a function of the content -/
+
+mutual
+theorem erase_inj : (a b : Env) → WF h a → WF h b → erase a = erase b → a = b
+  | .node s as d, b, ha, hb, he => by
+    cases b <;> simp only [erase, reduceCtorEq] at he
+    rename_i s' as' d'
+    injection he with h1 h2 _
+    have e1 := erase_inj s s' ((WF_node h _ _ _).1 ha).1 ((WF_node h _ _ _).1 hb).1 h1
+    have e2 := eraseList_inj as as' ((WF_node h _ _ _).1 ha).2.1 ((WF_node h _ _ _).1 hb).2.1 h2
+    subst e1 e2
+    rw [((WF_node h _ _ _).1 ha).2.2, ((WF_node h _ _ _).1 hb).2.2]
+  | .leaf c d, b, ha, hb, he => by
+    cases b <;> simp only [erase, reduceCtorEq] at he
+    injection he with h1 _
+    subst h1
+    rw [(WF_leaf h _ _).1 ha, (WF_leaf h _ _).1 hb]
+  | .wrapped e d, b, ha, hb, he => by
+    cases b <;> simp only [erase, reduceCtorEq] at he
+    rename_i e' d'
+    injection he with h1 _
+    have e1 := erase_inj e e' ((WF_wrapped h _ _).1 ha).1 ((WF_wrapped h _ _).1 hb).1 h1
+    subst e1
+    rw [((WF_wrapped h _ _).1 ha).2, ((WF_wrapped h _ _).1 hb).2]
+  | .assertion p o d, b, ha, hb, he => by
+    cases b <;> simp only [erase, reduceCtorEq] at he
+    rename_i p' o' d'
+    injection he with h1 h2 _
+    have e1 := erase_inj p p' ((WF_assertion h _ _ _).1 ha).1 ((WF_assertion h _ _ _).1 hb).1 h1
+    have e2 := erase_inj o o' ((WF_assertion h _ _ _).1 ha).2.1 ((WF_assertion h _ _ _).1 hb).2.1 h2
+    subst e1 e2
+    rw [((WF_assertion h _ _ _).1 ha).2.2, ((WF_assertion h _ _ _).1 hb).2.2]
+  | .elided d, b, _, _, he => by
+    cases b <;> simp only [erase, reduceCtorEq] at he
+    exact he
+  | .knownValue v d, b, ha, hb, he => by
+    cases b <;> simp only [erase, reduceCtorEq] at he
+    injection he with h1 _
+    subst h1
+    rw [(WF_knownValue h _ _).1 ha, (WF_knownValue h _ _).1 hb]
+  | .encrypted m d, b, _, _, he => by
+    cases b <;> simp only [erase, reduceCtorEq] at he
+    exact he
+  | .compressed c d, b, _, _, he => by
+    cases b <;> simp only [erase, reduceCtorEq] at he
+    exact he
+theorem eraseList_inj : (as bs : List Env) → WFList h as → WFList h bs →
+    eraseList as = eraseList bs → as = bs
+  | [], bs, _, _, he => by
+    cases bs with
+    | nil => rfl
+    | cons b bs => simp [eraseList] at he
+  | a :: as, bs, ha, hb, he => by
+    cases bs with
+    | nil => simp [eraseList] at he
+    | cons b bs =>
+      simp only [eraseList] at he
+      injection he with h1 h2
+      rw [erase_inj a b ((WFList_cons h _ _).1 ha).1 ((WFList_cons h _ _).1 hb).1 h1,
+        eraseList_inj as bs ((WFList_cons h _ _).1 ha).2 ((WFList_cons h _ _).1 hb).2 h2]
+end
+
+theorem route_independent {a b : Env} (ha : WF h a) (hb : WF h b) (he : erase a = erase b) : a = b :=
+  erase_inj h a b ha hb he
+
+/-- in particular two assembly routes to the same content report the same digest -/
+theorem route_independent_digest {a b : Env} (ha : WF h a) (hb : WF h b) (he : erase a = erase b) :
+    a.digest = b.digest := by rw [route_independent h ha hb he]
+
+end
 end EnvVerif
